@@ -44,12 +44,24 @@ fn after_read(obj: &FileDicomObject<InMemDicomObject>, params: u32) -> u32 {
     let mut o = DumpOptions::new();
     o.no_limit(params & 0x100 != 0).no_text_limit(params & 0x200 != 0).width(40 + (params >> 10) % 200);
     let _ = o.dump_file_to(&mut sink, obj);
+    limited_dump(obj, params);
     let _ = dicom_json::to_string(obj);
     let mut n = 0;
     if obj.get(Tag(0x7FE0, 0x0010)).is_some() {
         n += pixels_of(obj);
     }
     n
+}
+
+/// `dump_*_to` lift every width limit for writers other than the standard output; the width-limited code
+/// (what `dump_file` / `dump_object` and the CLI run on a terminal) is reached through the public `dump_element`
+fn limited_dump(obj: &InMemDicomObject, params: u32) {
+    let mut sink = Vec::new();
+    let width = [0u32, 1, 20, 63, 64, 70, 80, 100, 120, 200][(params >> 10) as usize % 10] + (params >> 14) % 7;
+    for e in obj.iter().take(64) {
+        sink.clear();
+        let _ = dicom_dump::dump_element(&mut sink, e, width, (params >> 17) % 3, params & 0x200 != 0, params & 0x100 != 0);
+    }
 }
 
 fn pixels_of(obj: &FileDicomObject<InMemDicomObject>) -> u32 {
@@ -90,6 +102,7 @@ pub fn drive(entry: u8, params: u32, data: &[u8]) -> Out {
                     let n = o.iter().count() as u32;
                     let mut sink = Vec::new();
                     let _ = dicom_dump::dump_object_to(&mut sink, &o);
+                    limited_dump(&o, params);
                     let _ = dicom_json::to_string(&o);
                     // and written back in every syntax
                     for i in 0..4 {
@@ -259,6 +272,7 @@ fn json(data: &[u8]) -> Out {
             let _ = dicom_json::to_string(&o);
             let mut sink = Vec::new();
             let _ = dicom_dump::dump_object_to(&mut sink, &o);
+            limited_dump(&o, (data.len() as u32).wrapping_mul(2654435761));
             let mut out = Vec::new();
             let _ = o.write_dataset_with_ts(&mut out, ts(1));
             Out { ok: true, depth: 1 + n }
